@@ -414,6 +414,9 @@ pub fn run(p: &Params, rep: &mut Report) {
         }
         rep.count("simple_pattern_programs", n);
     }
+    for_firstchar_programs(p, rep, p.size(25, 250), |prog, seed, rep| {
+        check_program(prog, Surface::Mgr, seed, thorough, rep, true);
+    });
     for_max_loop_programs(p, rep, p.size(12, 120), |prog, seed, rep| {
         check_program(prog, Surface::Mgr, seed, thorough, rep, true);
     });
